@@ -253,6 +253,7 @@ def strat_lmtd(tier):
         pos.flatmap(near),
         st.tuples(st.sampled_from([0.0, -1.0, -1e-3, -50.0]), pos),
         st.tuples(pos, st.sampled_from([0.0, -1.0, -1e-3, -50.0])),
+        st.tuples(st.sampled_from([0.0, -1.0, -1e-3, -50.0, -10.0]), st.sampled_from([0.0, -1.0, -20.0, -10.0, -1e-3])),  # both non-positive
     )
     return st.tuples(pairs, st.booleans()).map(lambda t: {"d1": t[0][0], "d2": t[0][1], "array": t[1]})
 
@@ -261,6 +262,6 @@ PARTS = [
     Part("entu", eval_entu, {"quick": 12000, "thorough": 500000}, strategy=strat_entu, min_nontrivial={"quick": 2000, "thorough": 50000}),
     Part("lmtd", eval_lmtd, {"quick": 3000, "thorough": 100000}, strategy=strat_lmtd, min_nontrivial={"quick": 500, "thorough": 10000}),
 ]
-MIN_SHARE = {"entu": {"c=0": 0.08, "c=1": 0.08, "form=text": 0.25, "form=member": 0.25}}
+MIN_SHARE = {"entu": {"c=0": 0.05, "c=1": 0.05, "form=text": 0.25, "form=member": 0.25}}
 
 FUZZ = {"entu": None}  # parts also driven by the coverage-guided supplement (thorough tier)
